@@ -793,6 +793,12 @@ impl hash::Hashable for Transaction {
                             }
                         }
                     }
+                } else if self.prefix.inputs.is_empty() {
+                    // A transaction without inputs carries no RingCT data on the wire; like the
+                    // reference it is hashed as RCTTypeNull: hash of the serialised base (the
+                    // single type byte) followed by the null hash.
+                    hashes.push(hash::Hash::new(serialize(&RctType::Null)));
+                    hashes.push(hash::Hash::null());
                 }
                 let bytes: Vec<u8> = hashes
                     .into_iter()
